@@ -251,6 +251,19 @@ def dict_method(I, st, ref, name, ca, node):
             for (s1, r1) in dict_delitem(I, s, ref, a[0], node):
                 out.append((s1, r1 if isinstance(r1, Exc) else r))
         return out
+    if name == 'popitem' and not a:
+        # some item of the dict (LIFO order is not modelled); KeyError iff empty
+        out = []
+        for (s, nonempty) in I.branch(st, d.size >= 1, 'nonempty', 'empty'):
+            if not nonempty:
+                out.append((s, Exc('KeyError', origin='popitem(): dictionary is empty')))
+                continue
+            k = fresh('popped', Val)
+            s2 = s.fork()
+            s2.assume(d.dom[k], Hashable(k))
+            s2.put(ref, d.clone(dom=z3.Store(d.dom, k, False), size=d.size - 1))
+            out.append((s2, TupleV([Opaque(k), d.wrap(d.val[k])])))
+        return out
     if name == 'setdefault' and len(a) in (1, 2):
         default = a[1] if len(a) == 2 else NONE
         out = []
@@ -355,6 +368,11 @@ class ConcDict(object):
 def concdict_method(I, st, ref, name, ca, node):
     d = st.get(ref)
     a = ca.pos
+    if not d.items and a and not isinstance(a[0], StrV) and name in ('__delitem__', 'pop', '__getitem__', 'get', '__contains__'):
+        # an empty dict literal asked about an arbitrary key: the dict contract on the empty map
+        s0 = st.fork()
+        s0.put(ref, DictObj.empty('Val', role='fresh'))
+        return dict_method(I, s0, ref, name, ca, node)
     if name in ('get', 'pop') and len(a) in (1, 2) and isinstance(a[0], StrV):
         if a[0].s in d.items:
             v = d.items[a[0].s]
@@ -750,6 +768,11 @@ def archive_method(I, st, ref, name, ca, node):
 # ----------------------------------------------------------------------------
 # generic protocol
 # ----------------------------------------------------------------------------
+DICT_ATTRS = set(['__getitem__', '__setitem__', '__delitem__', '__contains__', '__len__', '__iter__', 'clear', 'copy', 'fromkeys',
+                  'get', 'items', 'keys', 'pop', 'popitem', 'setdefault', 'update', 'values', '__eq__', '__ne__', '__repr__',
+                  '__class__', '__init__', '__missing__'])
+
+
 def class_of(I, st, o):
     """ClassV of a value where known (else None)"""
     if isinstance(o, Ref):
@@ -784,6 +807,8 @@ def getattr_(I, st, o, name, node):
                     return [(st, BoundV(o, name))]
                 return [(st, v)]
         # 4. model methods of the builtin part
+        if obj.kind in ('dict', 'concdict') and name not in DICT_ATTRS:
+            return [(st, Exc('AttributeError', origin='dict object has no attribute %s' % name))]
         if obj.kind in ('dict', 'deque', 'list', 'concdict', 'archive', 'file', 'set') or hasattr(obj, 'methods'):
             if hasattr(obj, 'getattr'):
                 r = obj.getattr(I, st, o, name, node)
